@@ -46,6 +46,38 @@ def first_descent(recs, order, contigs):
     return None
 
 
+def eval_file(r, recs, order, contigs, typed):
+    """Read one file with the implementation and apply the oracle (shared by run and replay_case).
+
+    `r` is the reader.run request, `recs` the records of its body in file order.  Returns (implementation's answer,
+    where, failures, position of the first descent or None)."""
+    i = impl.run(r)
+    where = {"lines": r["lines"], "mode": r["mode"], "order": order, "contigs": contigs, "typed": typed,
+             "records": [[x["tumor"], x["normal"], x["chr"], x["start"], x["stop"]] for x in recs]}
+    fails = []
+    if "init_exc" in i:
+        fails.append(dict(where, what="opening a well-formed file failed", kind="init", got=i["init_exc"]))
+        return i, where, fails, None
+    sortable = order in ("Coordinate", "BarcodesAndCoordinate")
+    d = first_descent(recs, order, contigs) if sortable else None
+    if d is None:
+        if i["iter_exc"] is not None or len(i["records"]) != len(recs):
+            fails.append(dict(where, what="a file in non-decreasing key order (or declaring no sortable order) was not read to the end",
+                              kind="false-reject", got={"exc": i["iter_exc"], "yielded": len(i["records"])}))
+    else:
+        if i["iter_exc"] != "ValueError" or len(i["records"]) != d:
+            fails.append(dict(where, what="first descent at record %d: expected exactly %d records then the ordering error" % (d, d),
+                              kind="descent", got={"exc": i["iter_exc"], "yielded": len(i["records"])}))
+    return i, where, fails, d
+
+
+def model_differs(r, m, i):
+    return {"op": "reader.run", "lines": r["lines"], "mode": r["mode"],
+            "differs": [k for k in sorted(set(m) | set(i)) if m.get(k) != i.get(k)],
+            "model": {"iter_exc": m.get("iter_exc"), "n": len(m.get("records", []))},
+            "impl": {"iter_exc": i.get("iter_exc"), "n": len(i.get("records", []))}}
+
+
 def run(ctx):
     out = Outcome()
     out.rule = ("files declaring Coordinate / BarcodesAndCoordinate / Unsorted / Unknown / nothing, contig list absent / lexical / karyotypic, typed (gdc-1.0.0) and scheme-less bodies; "
@@ -81,40 +113,93 @@ def run(ctx):
         col = "\t".join(impl.scheme_by_annotation("gdc-1.0.0").column_names()) if typed else "\t".join(UNTYPED)
         lines = header + [col] + to_lines(recs, typed, rng)
         mode = rng.choice(["Strict", "Lenient", "Silent"]) if typed else rng.choice(["Lenient", "Silent"])
-        allf = [p for l in lines for p in l.split("\t")]
-        reqs.append({"op": "reader.run", "lines": lines, "mode": mode, "floats": float_table(allf)})
+        reqs.append(make_request(lines, mode))
         meta.append((recs, order, contigs or [], typed))
     mo = ctx.driver.run(reqs)
     for r, m, (recs, order, contigs, typed) in zip(reqs, mo, meta):
         out.evaluations += 1
-        i = impl.run(r)
+        i, where, fails, d = eval_file(r, recs, order, contigs, typed)
         if has_unmodelled(m):
             out.unmodelled += 1
         elif m != i:
-            out.disagreements.append({"op": "reader.run", "lines": r["lines"], "mode": r["mode"],
-                                      "differs": [k for k in sorted(set(m) | set(i)) if m.get(k) != i.get(k)],
-                                      "model": {"iter_exc": m.get("iter_exc"), "n": len(m.get("records", []))},
-                                      "impl": {"iter_exc": i.get("iter_exc"), "n": len(i.get("records", []))}})
-        where = {"lines": r["lines"], "mode": r["mode"], "order": order, "contigs": contigs, "typed": typed}
+            out.disagreements.append(model_differs(r, m, i))
+        out.failures += fails
         if "init_exc" in i:
-            out.failures.append(dict(where, what="opening a well-formed file failed", kind="init", got=i["init_exc"]))
             continue
         sortable = order in ("Coordinate", "BarcodesAndCoordinate")
-        d = first_descent(recs, order, contigs) if sortable else None
         out.distribution["descent:%s" % ("none" if d is None else "at")] += 1
-        if d is None:
-            if i["iter_exc"] is not None or len(i["records"]) != len(recs):
-                out.failures.append(dict(where, what="a file in non-decreasing key order (or declaring no sortable order) was not read to the end",
-                                         kind="false-reject", got={"exc": i["iter_exc"], "yielded": len(i["records"])}))
-        else:
-            if i["iter_exc"] != "ValueError" or len(i["records"]) != d:
-                out.failures.append(dict(where, what="first descent at record %d: expected exactly %d records then the ordering error" % (d, d),
-                                         kind="descent", got={"exc": i["iter_exc"], "yielded": len(i["records"])}))
         if sortable and len(recs) >= 2:
             out.nontrivial.add(repr(r["lines"]))
         if len(out.samples) < 4 and d is not None:
             out.sample({"header": r["lines"][:4], "records": [[x["tumor"], x["normal"], x["chr"], x["start"], x["stop"]] for x in recs], "first_descent": d})
     return out
+
+
+def make_request(lines, mode):
+    allf = [p for l in lines for p in l.split("\t")]
+    return {"op": "reader.run", "lines": lines, "mode": mode, "floats": float_table(allf)}
+
+
+def records_of(failure):
+    """Body records of a stored file in file order: the stored "records", or (older files) read back from the lines."""
+    typed = failure["typed"]
+    if "records" in failure:
+        rows = failure["records"]
+    else:
+        lines = failure["lines"]
+        k = 0
+        while k < len(lines) and lines[k].startswith("#"):
+            k += 1
+        names = lines[k].split("\t")
+        ix = [names.index(n) for n in ("Tumor_Sample_Barcode", "Matched_Norm_Sample_Barcode", "Chromosome", "Start_Position", "End_Position")]
+        rows = []
+        for l in lines[k + 1:]:
+            f = l.split("\t")
+            rows.append([f[ix[0]], f[ix[1]], f[ix[2]], int(f[ix[3]]), int(f[ix[4]])])
+    return [{"tumor": t, "normal": nn, "chr": c, "start": s, "stop": e, "_typed": typed} for t, nn, c, s, e in rows]
+
+
+def replay_case(ctx, failure):
+    """Re-evaluate the stored failing input on the current implementation; return the list of failure dicts it
+    produces now (empty list = the property holds on that input)."""
+    if any(k not in failure for k in ("lines", "mode", "typed")) or "order" not in failure:
+        return None
+    try:
+        recs = records_of(failure)
+    except (ValueError, IndexError, KeyError):
+        return None
+    lines, mode, order, contigs, typed = list(failure["lines"]), failure["mode"], failure["order"], list(failure.get("contigs") or []), failure["typed"]
+    r = make_request(lines, mode)
+    k = next((j for j, l in enumerate(lines) if not l.startswith("#")), len(lines))
+    print("file read with MafReader (%s, %s body):" % (mode, "gdc-1.0.0" if typed else "scheme-less"))
+    for l in lines[:k]:
+        print("    " + l)
+    print("    <column line, %d columns>" % len(lines[k].split("\t")) if k < len(lines) else "    <no column line>")
+    for x in recs:
+        print("    record tumor=%r normal=%r chr=%r start=%r end=%r" % (x["tumor"], x["normal"], x["chr"], x["start"], x["stop"]))
+    i, where, fails, d = eval_file(r, recs, order, contigs, typed)
+    if "init_exc" in i:
+        print("implementation: opening failed with %s" % i["init_exc"])
+    else:
+        print("implementation: yielded %d of %d records, then %s" % (len(i["records"]), len(recs), i["iter_exc"] or "end of file"))
+        if d is None:
+            print("documented order: %s; all %d records expected" % ("no descent" if order in ("Coordinate", "BarcodesAndCoordinate") else "no sortable order declared", len(recs)))
+        else:
+            print("documented order: first descent at record %d; %d records then ValueError expected" % (d, d))
+    try:
+        m = ctx.driver.run([r])[0]
+        if has_unmodelled(m):
+            print("model: outside the model's domain")
+        elif "init_exc" in m:
+            print("model: opening fails with %s" % m["init_exc"])
+        else:
+            print("model: yields %d records, then %s%s" % (len(m.get("records", [])), m.get("iter_exc") or "end of file",
+                                                            "" if m == i else "   (differs from the implementation in %s)" % model_differs(r, m, i)["differs"]))
+    except Exception as e:  # noqa
+        print("model: not available (%s)" % str(e)[:200])
+    for f in fails:
+        print("oracle fails: %s" % f["what"])
+    return fails
 
 
 def search(ctx):
